@@ -4,6 +4,8 @@ import Spok.Judge.Run
 
 input line:  `<case> | <implementation observation>`
   case            `T<k> ev ev …`,  ev = `w.<file>.<v>` | `d.<file>` | `c` | `f.<Task>` | `r.<Tasks>.<force>.<crash>`
+                  (`T<k>b …` = the same history run against the real binary, one process per invocation, kills being real
+                  SIGKILLs; the first word of a case is not read here, so both kinds are replayed, judged and compared alike)
   observation     sections separated by ` ; `; inside a section one value per invocation, separated by ` / `
      oracle arguments (observed by the harness, not compared):
        INP  `A=0:0.1+2.1,B=x,N=0:`   per task `dirs:items` (item = `path.content`), `x` = the hasher fails
